@@ -757,6 +757,10 @@ func (fc *followerController) handleSnapshot(stream proto.OxiaLogReplication_Sen
 	}
 	stream = &snapshotStreamWithFirstChunk{OxiaLogReplication_SendSnapshotServer: stream, first: firstChunk}
 
+	// A follower that was never told the term (e.g. a node that came back with an empty disk and is
+	// reached by the leader before the coordinator) has no term options of its own
+	hasTermOptions := fc.term != wal.InvalidTerm
+
 	// Wipe out both WAL and DB contents
 	err = fc.wal.Clear()
 	if err != nil {
@@ -795,6 +799,15 @@ func (fc *followerController) handleSnapshot(stream proto.OxiaLogReplication_Sen
 		fc.closeStreamNoMutex(errors.Wrap(err, "failed to open database after loading snapshot"))
 		return
 	}
+
+	if !hasTermOptions {
+		// Take the options of the term from the snapshot, which carries the ones of the leader. Otherwise
+		// this replica would go on with the defaults, i.e. without recording the notifications.
+		if _, snapshotTermOptions, err := newDb.ReadTerm(); err == nil {
+			fc.termOptions = snapshotTermOptions
+		}
+	}
+	newDb.EnableNotifications(fc.termOptions.NotificationsEnabled)
 
 	// The new term must be persisted, to avoid rolling it back
 	if err = newDb.UpdateTerm(fc.term, fc.termOptions); err != nil {
